@@ -7,7 +7,7 @@ package types
 
 //@ // ---- C13: the vesting denomination ----
 //@ func (p Params) Validate() (err)
-//@   ensures (err == nil) == (len(p.Denom) != 0)
+//@   ensures (err == nil) == (len(p.Denom) != 0 && validDenom(p.Denom))
 //@   prop C13 C20
 
 //@ // ---- C20: entry points under the no-panic sweep (no functional claim here: they must not panic for any field values) ----
